@@ -10,6 +10,9 @@ use futures::stream::StreamExt as _;
 use log::{debug, error};
 use network::SimpleSender;
 use std::collections::{HashMap, HashSet};
+#[cfg(hotstuff_verif)]
+use network::simnet::{SystemTime, UNIX_EPOCH};
+#[cfg(not(hotstuff_verif))]
 use std::time::{SystemTime, UNIX_EPOCH};
 use store::Store;
 use tokio::sync::mpsc::{channel, Receiver, Sender};
